@@ -19,6 +19,9 @@ PLAN = {
         # render(): (HELP? TYPE SAMPLE* blank)* structure, every sample inside its TYPE line's family, distribution TYPE decided by the
         # bare metric name -- over the formatting.rs line contracts proved above (shared template with C07)
         {"template": "../C07/recorder.verus.rs", "tier": "quick", "rlimit": 60, "min_functions": 5},
+        # key_to_parts: every label name is the sanitised name (shared template with C07) -- the call glue between the record path and
+        # the sanitisers checked by Kani below
+        {"template": "../C07/labels.verus.rs", "tier": "quick", "rlimit": 40, "min_functions": 1},
     ],
     "kani": [{
         "crate": "metrics-exporter-prometheus", "cargo_args": ["--no-default-features"], "parallel": 3, "build_timeout": 3000,
